@@ -38,6 +38,7 @@ QUICK = [
     (("TE", dict(T=2)), 2),
     (("TE", dict(T=2, dep=("d", "h"))), 2),
     (("TK", dict(T=2)), 2),
+    (("TP", dict(T=3)), 2),
 ]
 THOROUGH = QUICK + [(("TE", dict(T=3)), 2), (("TK", dict(T=3)), 2), (("TC", dict(T=3, nw=3, nc=2)), 3), (("TD", dict(T=2, nw=3)), 2), (("TN", dict(T=2)), 3), (("TJ", dict(T=3)), 2)]
 
